@@ -30,16 +30,9 @@ def known_matcher(x, entry):
 def run(tier, seed):
     chk = runner.Check(PID, tier, seed)
     repo = Repo()
-    for N in ec.NS:
-        for rep in ec.single_run_reports(repo, N, ("node", "getyonx", "p2d", "getimage", "init")):
-            chk.add_report(rep)
-        ec.relational(repo, chk, N, ("R01",))
-    rep1 = verify.verify(repo, ce.get_image_1(), ce.SCHEMA, [ce.transform_p2d(1)], {}, ce.SPEC_FUNCS,
-                         inline={("Evolvent", "__GetYonX")}, config="N=1")
-    chk.add_report(rep1)
-    chk.add_report(verify.verify(repo, ce.transform_p2d(1), ce.SCHEMA, [], {}, ce.SPEC_FUNCS, inline=set(), config="N=1"))
-    chk.add_report(verify.verify(repo, n1_cell_contract(), ce.SCHEMA, [ce.transform_p2d(1)], {}, ce.SPEC_FUNCS,
-                                 inline={("Evolvent", "__GetYonX")}, config="N=1-cell", canary=False))
+    n1cell = verify.verify(repo, n1_cell_contract(), ce.SCHEMA, [ce.transform_p2d(1)], {}, ce.SPEC_FUNCS,
+                           inline={("Evolvent", "__GetYonX")}, config="N=1-cell", canary=False, defer=True)
+    ec.run_parallel(chk, ("node", "getyonx", "p2d", "getimage", "init"), ("R01",), ("n1_forward",), more_reports=[n1cell])
     chk.inlined.add("Evolvent.__GetYonX (N=1 path only: one assignment)")
     chk.assumptions += [ec.ASSUME_FLOAT, ec.ASSUME_NUMPY, ec.ASSUME_PRODUCT,
                         "surjectivity ('every cell is reached') is the pigeonhole consequence of the proved injectivity "
